@@ -314,6 +314,17 @@ class Interp:
                 return found ^ isinstance(op, ast.NotIn)
             if isinstance(a, str) and isinstance(b, str):
                 return (a in b) ^ isinstance(op, ast.NotIn)
+            if isinstance(b, IterV):
+                # membership test on a one-shot iterator: it is advanced up to (and including) the first match, or exhausted
+                found = False
+                rest = list(b.items)
+                while rest:
+                    x = rest.pop(0)
+                    if self.compare(a, ast.Eq(), x):
+                        found = True
+                        break
+                b.items = rest
+                return found ^ isinstance(op, ast.NotIn)
             return self.decide(f"{self._show(a)} in {self._show(b)}") ^ isinstance(op, ast.NotIn)
         if isinstance(a, bool):
             a = num(int(a))
@@ -1013,7 +1024,9 @@ class Interp:
         if isinstance(it, str):
             return list(it)
         if isinstance(it, IterV):
-            return list(it.items)
+            # a generator / filter object is consumed by the first pass over it
+            items, it.items = list(it.items), []
+            return items
         if isinstance(it, set):
             return sorted(it, key=repr)
         raise NotInFragment(f"iteration over {type(it).__name__} {it!r}" + (f" at {norm(node)}" if node is not None else ""))
@@ -1740,7 +1753,7 @@ def _b_isinstance(it, args, kw):
 
 
 def _b_sum(it, args, kw):
-    xs = args[0].items if isinstance(args[0], (Col, IterV)) else it.iterate(args[0])
+    xs = args[0].items if isinstance(args[0], Col) else it.iterate(args[0])
     tot = args[1] if len(args) > 1 else num(0)
     for x in xs:
         if isinstance(x, bool):
@@ -1752,12 +1765,12 @@ def _b_sum(it, args, kw):
 
 
 def _b_any(it, args, kw):
-    xs = args[0].items if isinstance(args[0], IterV) else it.iterate(args[0])
+    xs = it.iterate(args[0])
     return any(it.truth(x) for x in xs)
 
 
 def _b_all(it, args, kw):
-    xs = args[0].items if isinstance(args[0], IterV) else it.iterate(args[0])
+    xs = it.iterate(args[0])
     return all(it.truth(x) for x in xs)
 
 
@@ -1823,7 +1836,8 @@ def _b_chr(it, args, kw):
 
 def _b_filter(it, args, kw):
     f, xs = args
-    return [x for x in it.iterate(xs) if it.truth(it.call(f, [x], {}) if f is not None else x)]
+    # (evaluated eagerly; what matters here is that the RESULT is a one-shot iterator, not a list)
+    return IterV([x for x in it.iterate(xs) if it.truth(it.call(f, [x], {}) if f is not None else x)])
 
 
 def _b_reversed(it, args, kw):
